@@ -101,6 +101,16 @@ func genAlloc(r *Rng, tier string, n int, emit func(string)) {
 				pats = append(pats, p)
 			}
 		}
+		if cr.Chance(12) {
+			// a wide node: 30-64 children with distinct first bytes, plus a parameter and a catch-all sibling
+			const alpha = "0123456789abcdefghijklmnopqrstuvwxyzABCDEFGHIJKLMNOPQRSTUVWXYZ-_"
+			base := Pick(cr, []string{"/", "/api/", "/{v}/"})
+			n := 30 + cr.Intn(len(alpha)-30+1)
+			for _, i := range cr.Perm(len(alpha))[:n] {
+				pats = append(pats, base+string(alpha[i])+Pick(cr, []string{"", "x", "/y", "/{id}"}))
+			}
+			pats = append(pats, base+"{p}", base+"*{rest}")
+		}
 		for i := 0; i < k; i++ {
 			pats = append(pats, genPattern(cr, hostPct))
 		}
